@@ -54,6 +54,13 @@ def run_case(case: dict) -> Result:
         except common.REFUSAL:
             classes.add('refused')
             break
+        except ArithmeticError:
+            # a value that does not evaluate (x / 0) was read by a read-and-remove operation: a legitimate exception; the tree is still checked below
+            classes.add('unevaluable-value')
+            bad0 = O.invariants(root)
+            if bad0:
+                res.bad(f'invariant-after-arithmetic-error:{bad0[0][0]}:{a.key()}', f'{op} raised an arithmetic error and left {bad0[:2]}')
+            break
         except Exception as e:  # noqa: BLE001
             res.bad(f'edit-crashed:{a.key()}:{type(e).__name__}', f'{op} raised {e!r}')
             break
